@@ -93,6 +93,8 @@ def labels(ctx, spec):
         ctx.nt()
     if spec.get("chunk"):
         ctx.label("chunk_parent")
+        if spec["kind"] == "collection" and spec["obj"].get("start") is not None and [spec["obj"]["start"], spec["obj"]["end"]] != list(spec["chunk"]):
+            ctx.label("explicit_bounds_differ_from_chunk")
     if spec.get("genome"):
         ctx.label("with_sequence")
     ctx.label("kind:" + kind)
@@ -283,6 +285,7 @@ def strat_obj(draw, tier="quick", kinds=("collection", "collection", "collection
              "qualifiers": draw(S.simple_qualifiers(1))}
         hi = max(v["end"] for v in vs)
     sp = {"kind": kind, "obj": o}
+    explicit_bounds = kind == "collection" and draw(st.integers(0, 2)) == 0
     mode = draw(st.sampled_from(["none", "chrom", "chrom", "chunk", "chunk"]))
     if mode != "none":
         n = hi + draw(st.integers(1, 6))
@@ -295,6 +298,12 @@ def strat_obj(draw, tier="quick", kinds=("collection", "collection", "collection
             else:
                 cs = draw(st.integers(0, n - 1))
                 sp["chunk"] = [cs, draw(st.integers(cs + 1, n))]
+    if explicit_bounds:
+        # collection bounds given explicitly: inside the sequence / chunk window and containing every member
+        lo_m = _lo(kind, o)
+        w_lo, w_hi = (sp["chunk"] if sp.get("chunk") else (0, hi + 6 if mode == "none" else len(sp["genome"])))
+        o["start"] = draw(st.integers(w_lo, max(w_lo, lo_m)))
+        o["end"] = draw(st.integers(hi, max(hi, w_hi)))
     return sp
 
 
@@ -336,7 +345,7 @@ PROP = Prop(
     pid="C08",
     legs=[
         Leg("roundtrip", check_roundtrip, strategy=strat_obj, n_quick=500, n_thorough=4000, shards_quick=4,
-            must_hit=["variants_present", "chunk_parent", "export_parent", "multi_value_qualifier", "kind:gene", "kind:vc", "kind:tx", "kind:feat", "kind:fc"],
+            must_hit=["variants_present", "chunk_parent", "export_parent", "explicit_bounds_differ_from_chunk", "multi_value_qualifier", "kind:gene", "kind:vc", "kind:tx", "kind:feat", "kind:fc"],
             rule="collections (genes, feature collections, variant collection) and every member class on its own, parent none / whole chromosome / chunk; from_dict(to_dict), export_parent, schema load/dump through JSON text, pickle"),
         Leg("determinism", check_determinism, strategy=strat_determinism, n_quick=120, n_thorough=800, shards_quick=4,
             must_hit=["qualifier_order_permuted"],
